@@ -20,7 +20,7 @@ func init() {
 		Rule: "PRNG include graphs (acyclic, depth <= 4, up to 7 files) of generated templates laid out in nested temporary directories; every file is independently: on disk only / in the cache only (ParseTemplateAndCache) / both with different content (disk must win) / missing; include arguments are literals, variables and filtered expressions; the top-level template is parsed with an absolute path, a relative path or no path (cwd), and includes occur inside loops, conditionals and captures after assigns. The output is compared with the reference model inlining the graph. Failure cases: missing file at any depth, nil/int/array/map argument, render error / syntax error / unknown tag inside an included file at any depth, a directory or a path through a regular file. Non-trivial = at least one include is executed; distinct = distinct (graph sources, presence states, path mode).",
 		Exhaustive: func(string) bool { return false },
 		Assumptions: []string{
-			"included files are resolved relative to the directory of the top-level template's parse path at every depth (the engine parses an included file at its includer's location, and the statement says: the path the template being rendered was parsed with)",
+			"included files are resolved relative to the directory of the top-level template's parse path at every depth, also when the including file itself lies in a sub-directory (the engine parses an included file at its includer's location; the statement says: the path the template being rendered was parsed with, and: exactly the output that rendering the content inline gives)",
 			"whether assignments made inside an included file leak back is not asserted (included files do not assign)",
 			"for EISDIR/ENOTDIR only 'SourceError, no output, no panic' is asserted",
 		},
@@ -70,10 +70,10 @@ func c14Case(c *core.Ctx, r *core.Rand, i int, caseDir string) {
 			f.state = r.Intn(3) // present more often than missing
 		}
 		var later []string
-		// only files that live in the top-level template's own directory include others, so that "relative to the
-		// includer" and "relative to the top-level template" name the same file (the statement does not separate them)
-		inTopDir := !strings.Contains(filepath.Clean(args[k]), "/")
-		for j := k + 1; inTopDir && j < nf && len(later) < 2; j++ {
+		// files in sub-directories include others too: the name is resolved relative to the directory of the path the
+		// template being rendered (the top-level one) was parsed with, exactly as if the file's content stood inline
+		// (statement, and observe_at: "rendering the inlined content"), not relative to the included file
+		for j := k + 1; j < nf && len(later) < 2; j++ {
 			if r.Bool() {
 				later = append(later, args[j])
 			}
